@@ -3,6 +3,7 @@ import Clover.Proofs.BulkExact
 import Clover.Proofs.ReadsExact
 import Clover.Proofs.SortClasses
 import Clover.Proofs.CopyAnyPlan
+import Clover.Proofs.TotalOrder
 /-! # Refinement of STATES along histories, whatever plan serves the queries
 
 `refine_history` (RefineStep.lean) is restricted to histories whose query-carrying calls are served
@@ -37,9 +38,9 @@ def Op.InDomain (s : Spec.State) : Op → Prop
   | .findFirst _ => True
   | .exists_ _ => True
   | .count _ => True
-  | .update q _ => FullPlan s q ∨ BulkDomain s q
-  | .delete q => FullPlan s q ∨ BulkDomain s q
-  | .createCollectionByQuery c q _ => FullPlan (Spec.insert c ({} : Spec.Coll) s) q ∨ CopyDomain s c q
+  | .update q _ => FullPlan s q ∨ BulkDomain s q ∨ BulkDomainWAll s q
+  | .delete q => FullPlan s q ∨ BulkDomain s q ∨ BulkDomainWAll s q
+  | .createCollectionByQuery c q _ => FullPlan (Spec.insert c ({} : Spec.Coll) s) q ∨ CopyDomain s c q ∨ CopyDomainWAll s c q
   | _ => True
 
 /-- every call of the history is in the domain in the specification state reached before it -/
@@ -213,26 +214,30 @@ theorem exec_refines_state (op : Op) (hop : OpOK op) (hroute : op.route = op)
   | count q =>
     exact read_refines_state likeFn fnFam _ rfl s σ hw hr (count_isErr_any_plan likeFn fnFam s σ hw hr q)
   | update q u =>
-    rcases hdom with hfull | hany
+    rcases hdom with hfull | hany | hW
     · exact state_of_refines (exec_refines likeFn fnFam _ hop hroute s σ hw hr hfull)
     · cases hl : Spec.lookup q.coll s with
       | none => exact state_of_refines (update_missing likeFn fnFam s σ hw hr q u hl)
       | some coll =>
         obtain ⟨hd, hsk, hlim⟩ := hany coll hl
         exact update_refines_state_any_plan likeFn fnFam s σ hw hr q u coll hl hd hsk hlim
+    · exact update_refines_state_any_plan_window likeFn fnFam s σ hw hr q u (hW.toBulkDomainW likeFn fnFam)
   | delete q =>
-    rcases hdom with hfull | hany
+    rcases hdom with hfull | hany | hW
     · exact state_of_refines (exec_refines likeFn fnFam _ hop hroute s σ hw hr hfull)
     · cases hl : Spec.lookup q.coll s with
       | none => exact state_of_refines (delete_missing likeFn fnFam s σ hw hr q hl)
       | some coll =>
         obtain ⟨hd, hsk, hlim⟩ := hany coll hl
         exact delete_refines_state_any_plan likeFn fnFam s σ hw hr q coll hl hd hsk hlim
+    · exact delete_refines_state_any_plan_window likeFn fnFam s σ hw hr q (hW.toBulkDomainW likeFn fnFam)
   | createCollectionByQuery c q fresh =>
-    rcases hdom with hfull | hcopy
+    rcases hdom with hfull | hcopy | hW
     · exact state_of_refines (exec_refines likeFn fnFam _ hop hroute s σ hw hr hfull)
     · exact state_of_refines
         (createCollectionByQuery_exact_any_plan likeFn fnFam s σ hw hr c hop q fresh hcopy.1 hcopy.2.1 hcopy.2.2)
+    · exact state_of_refines
+        (createCollectionByQuery_exact_any_plan_window likeFn fnFam s σ hw hr c hop q fresh (hW.toCopyDomainW likeFn fnFam))
   | _ => exact state_of_refines (exec_refines likeFn fnFam _ hop hroute s σ hw hr trivial)
 
 /-- **One public call refines the specification's STATE step, whatever plan serves it**: a
